@@ -44,6 +44,52 @@ def slot_tags(ci):
     return out
 
 
+def _dump(state, v, depth=0, seen=None):
+    """textual dump of a value through the heap (attribute values, container parts)"""
+    seen = set() if seen is None else seen
+    out = [repr(v)]
+    from ..values import IteV as _IteV
+    if isinstance(v, _IteV):
+        out += [_dump(state, v.a, depth, seen), _dump(state, v.b, depth, seen)]
+    if isinstance(v, Obj) and v.oid in state.heap and v.oid not in seen and depth < 4:
+        seen.add(v.oid)
+        h = state.heap[v.oid]
+        out.append(repr(h.parts))
+        if h.fresh:
+            for av in h.attrs.values():
+                out.append(_dump(state, av, depth + 1, seen))
+        for p in (h.parts or ()):
+            for it in getattr(p, "items", ()) or ():
+                out.append(_dump(state, it, depth + 1, seen))
+            for _g, items in getattr(p, "alts", ()) or ():
+                for it in items:
+                    out.append(_dump(state, it, depth + 1, seen))
+    return " ".join(out)
+
+
+def stored_in_result(o, slot) -> bool:
+    """the returned object's slot holds the result of a nested replace_table on the receiver's slot, or new_table"""
+    import re
+    from ..values import IteV as _IteV
+
+    def objs(v):
+        if isinstance(v, _IteV):
+            return objs(v.a) + objs(v.b)
+        return [v] if isinstance(v, Obj) else []
+    found = False
+    for ov in objs(o.value):
+        h = o.state.heap.get(ov.oid)
+        if h is None or not h.fresh:
+            continue
+        if slot not in h.attrs:
+            return False        # the returned copy still shares the receiver's slot value
+        found = True
+        txt = _dump(o.state, h.attrs[slot])
+        if not (re.search(r"\$self\." + re.escape(slot) + r"[^ ,()]*\.replace_table\(", txt) or "$new_table" in txt):
+            return False
+    return True
+
+
 def check_class(cq):
     from . import c01
     r = repo()
@@ -133,6 +179,9 @@ def check_class(cq):
             pcc = o.state.pc + present
             if ex.smt.feasible(pcc) and not ex.smt.implied(pcc, cov):
                 uncovered[slot] = f"on the path {z3.simplify(z3.And(o.state.pc)) if o.state.pc else True} the slot is not rebuilt"
+            elif ex.smt.feasible(pcc) and not stored_in_result(o, slot):
+                uncovered[slot] = ("the rebuilt value (result of the nested replace_table / new_table) is not stored "
+                                   f"in slot {slot} of the returned object")
     obs = []
     for slot in sorted({x.replace("[*]", "").split(".")[1] for x in rs}):
         ok = (slot in replaced or (slot in assigned and not need_call.get(slot))) and slot not in uncovered
